@@ -70,6 +70,12 @@ def get_fingerprinted_hostname(url, infer_redirection=True, strip_suffix=False):
 
 
 def fingerprint_url(url, unsplit=True, strip_suffix=False, platform_aware=False):
+    # NOTE: the fingerprint is computed from the normalized url, so that two
+    # urls sharing a normalized form always share a fingerprint (lowercasing
+    # first can make normalization see an index page, an irrelevant query
+    # item etc. where it would not have otherwise)
+    url = normalize_url(url, platform_aware=platform_aware)
+
     url = url.lower()
 
     splitted = normalize_url(
@@ -77,6 +83,7 @@ def fingerprint_url(url, unsplit=True, strip_suffix=False, platform_aware=False)
         unsplit=False,
         query_item_filter=lang_query_item_filter,
         platform_aware=platform_aware,
+        infer_redirection=False,
     )
     _, netloc, path, query, fragment = splitted
 
